@@ -238,19 +238,23 @@ pub struct ConnDataHarness {
 }
 impl Harness for ConnDataHarness {
     fn name(&self) -> &'static str {
-        if self.prop == "C02" { "c02.zero_copy_connection" } else { "c03.zero_copy_connection" }
+        match self.prop {
+            "C02" => "c02.zero_copy_connection",
+            "C08" => "c08.zero_copy_connection",
+            _ => "c03.zero_copy_connection",
+        }
     }
     fn property(&self) -> &'static str {
         self.prop
     }
     fn modes(&self) -> Vec<(&'static str, u32, bool)> {
-        if self.prop == "C02" {
+        if self.prop == "C02" || self.prop == "C08" {
             return vec![("sc", 1, true)];
         }
         vec![("sc", 4, true), ("weak", 5, true)]
     }
     fn quick_runs(&self) -> u64 {
-        40_000
+        if self.prop == "C08" { 20_000 } else { 40_000 }
     }
     fn components(&self) -> Value {
         json!({"real": ["iceoryx2-cal zero_copy_connection::common (Sender/Receiver, used_chunk_list)", "spsc index queues", "dynamic_storage::process_local"], "stub": ["atomic ordering semantics", "thread scheduler"]})
